@@ -13,6 +13,7 @@ package c12
 
 import (
 	"encoding/hex"
+	"flag"
 	"fmt"
 	"io"
 	"log/slog"
@@ -31,14 +32,33 @@ const prop = "C12"
 
 var fuzzing = os.Getenv("VERIF_FUZZING") == "1"
 
+// lightTargets need neither the trust store nor the evidence pools: their
+// fuzz workers skip that (slow under coverage instrumentation) start-up work.
+var lightTargets = map[string]bool{"FuzzTlvDecode": true, "FuzzTlvUnwrapTags": true, "FuzzRApdu": true, "FuzzSMDecode": true, "FuzzCOM": true, "FuzzDG1": true,
+	"FuzzDG2": true, "FuzzDG7": true, "FuzzDG11": true, "FuzzDG12": true, "FuzzDG13DG15": true, "FuzzDG14": true, "FuzzDG16": true, "FuzzSOD": true,
+	"FuzzCardAccess": true, "FuzzCardSecurity": true, "FuzzEFDIR": true, "FuzzNewDG": true, "FuzzISO19794": true, "FuzzISO39794": true, "FuzzMrz": true}
+
 func TestMain(m *testing.M) {
+	flag.Parse()
 	// The library logs through log/slog.  Keep the default level (Info) but do
 	// not write megabytes of warnings to stderr.
 	slog.SetDefault(slog.New(slog.NewTextHandler(io.Discard, &slog.HandlerOptions{Level: slog.LevelInfo})))
+	light := false
+	if f := flag.Lookup("test.fuzz"); f != nil && f.Value.String() != "" {
+		light = lightTargets[strings.Trim(f.Value.String(), "^$")]
+		// an exec of the public-key targets costs 0.1-1 s under coverage
+		// instrumentation: the default 60 s minimisation of every new corpus entry
+		// would eat the whole budget
+		flag.Set("test.fuzzminimizetime", "2s")
+	}
 	loadGenuine()
-	buildFixtures()
-	buildPools()
-	warmup()
+	buildFixtures(!light)
+	if light {
+		warmupLight()
+	} else {
+		buildPools()
+		warmup()
+	}
 	evid.Main(m, prop)
 }
 
